@@ -236,7 +236,139 @@ Proof.
   { intros c1 c1' HR1. pose proof HR1 as (Hm1 & Hp1 & He1 & Hr1). rewrite <- He1. destruct (c_err c1); [exact HR1|].
     pose proof Hp1 as [Hs1 _]. rewrite <- Hs1, <- (depth_R old _ _ Hp1). destruct (stack (c_p c1)); [exact HR1|]. apply R_set_err. exact HR1. }
   destruct (c_mode (s_core s)) eqn:Em; try (apply Hfin; exact HR).
-  all: try (rewrite <- (Hpend ltac:(rewrite Em; discriminate)); apply Hfin; apply emit_R; [exact HR|]; intros Hk; try discriminate Hk; apply Hba; exact Em).
+  all: try (rewrite <- (Hpend ltac:(cbn; discriminate)); apply Hfin; apply emit_R; [exact HR|]; intros Hk; try discriminate Hk; apply Hba; reflexivity).
   all: try (apply Hfin; rewrite <- (depth_R old _ _ Hp); apply R_set_err; exact HR).
   all: try (apply Hfin; apply R_set_err; exact HR).
+Qed.
+
+(* ---------- the step that completes the first object ---------- *)
+Definition clean (c : core) : Prop := c_mode c = MValue /\ stack (c_p c) = [] /\ c_err c = None.
+Definition bump (b : byte) : bool := N.eqb b 41 || N.eqb b 34 || N.eqb b 124.
+
+Lemma clean_Rs s : clean (s_core s) -> Rs (code (c_p (s_core s))) s s0.
+Proof.
+  intros (Hm & Hs & He). split.
+  - unfold R, pR. cbn [s_core s0 core0 c_mode c_p c_err stack code c_next c_base c_sharp c_rn c_rcnt]. rewrite Hm, Hs, He. cbn.
+    repeat split; try reflexivity; try (intros; discriminate); try (intros [?|?]; discriminate);
+      try (match goal with H : _ = _ \/ _ = _ |- _ => destruct H; discriminate end).
+  - rewrite Hm. intros H. exfalso. apply H. reflexivity.
+Qed.
+
+Lemma push_val_code p t : code p = [] -> code (push_val p t) = [] \/ stack (push_val p t) = [].
+Proof. intros Hc. unfold push_val. destruct (stack p); cbn; [right; reflexivity|left; exact Hc]. Qed.
+Lemma push_token_code p tok : code p = [] -> code (push_token p tok) = [] \/ stack (push_token p tok) = [].
+Proof.
+  intros Hc. unfold push_token. destruct (is_t tok); [apply push_val_code; exact Hc|]. destruct (is_nil_tok tok); [apply push_val_code; exact Hc|].
+  destruct (stack p) as [|[k|w|t] rest] eqn:Es; try (apply push_val_code; exact Hc).
+  destruct rest; cbn; [right; reflexivity|left; exact Hc].
+Qed.
+Lemma close_list_code p q : code p = [] -> close_list p = inl q -> code q = [] \/ stack q = [].
+Proof.
+  intros Hc. unfold close_list. destruct (pop_to_open (stack p) []) as [[[k items] below]|]; [|discriminate].
+  destruct k.
+  - destruct below as [|[k|w|t] below]; try (intros H; injection H as <-; cbn; first [right; reflexivity|left; exact Hc]).
+    destruct below; intros H; injection H as <-; cbn; first [right; reflexivity|left; exact Hc].
+  - destruct below; intros H; injection H as <-; cbn; first [right; reflexivity|left; exact Hc].
+  - destruct below; intros H; injection H as <-; cbn; first [right; reflexivity|left; exact Hc].
+  - destruct below; intros H; injection H as <-; cbn; first [right; reflexivity|left; exact Hc].
+Qed.
+Lemma emit_code c k lex : code (c_p c) = [] -> c_err c = None -> c_err (emit c k lex) = None ->
+  code (c_p (emit c k lex)) = [] \/ clean (emit c k lex).
+Proof.
+  intros Hc He Hn. assert (Hm := emit_mode c k lex). unfold clean. rewrite Hm.
+  unfold emit in *. destruct k; cbn in *.
+  - destruct (push_token_code (c_p c) lex Hc); [left|right]; tauto.
+  - destruct (push_val_code (c_p c) (TLeaf (LStr lex)) Hc); [left|right]; tauto.
+  - destruct (push_val_code (c_p c) (TLeaf (LPipe lex)) Hc); [left|right]; tauto.
+  - destruct lex; cbn in *; [discriminate|]. destruct (push_val_code (c_p c) (TLeaf (LChar (b :: lex))) Hc); [left|right]; tauto.
+  - destruct (valid_int (c_base c) lex); cbn in *; [|discriminate].
+    destruct (push_val_code (c_p c) (TLeaf (LInt (c_base c) lex)) Hc); [left|right]; tauto.
+  - destruct (push_val_code (c_p c) (TLeaf (LBits lex)) Hc); [left|right]; tauto.
+Qed.
+
+(* one application of an action to a state with no object yet: either still none, or the state is
+   clean (value mode, empty stack) and the object was completed by this byte (no retry: the byte is
+   ')', '"' or '|') or by a lexeme the byte terminates (retry: the byte is neither '"' nor '|') *)
+Lemma first_apply esc a b s c1 op s1 r :
+  allowed2 (c_mode (s_core s)) b a = true -> step_core esc a b (s_core s) = (c1, op) -> s_apply s b c1 op = (s1, r) ->
+  c_err (s_core s) = None -> code (c_p (s_core s)) = [] -> c_err (s_core s1) = None ->
+  code (c_p (s_core s1)) = [] \/
+  (clean (s_core s1) /\ ((r = false /\ bump b = true) \/ (r = true /\ N.eqb b 34 = false /\ N.eqb b 124 = false))).
+Proof.
+  intros Hal Hstep Happ He Hc He1. apply andb_true_iff in Hal as [Hal1 Hal2].
+  destruct s as [c pend]. cbn [s_core] in *.
+  destruct a; cbn [step_core] in Hstep.
+  all: try (injection Hstep as <- <-; cbn in Happ; injection Happ as <- <-; left; cbn; exact Hc).
+  all: try (repeat match type of Hstep with context [match ?x with _ => _ end] => destruct x eqn:? end;
+            injection Hstep as <- <-; cbn in Happ; injection Happ as <- <-; left; cbn; first [exact Hc | discriminate He1]).
+  { (* AClose *)
+    apply andb_true_iff in Hal2 as [Hm Hb]. apply mode_eqb_eq in Hm.
+    destruct (close_list (c_p c)) as [q|er] eqn:Ecl; injection Hstep as <- <-; cbn in Happ; injection Happ as <- <-; cbn in He1 |- *; [|discriminate He1].
+    destruct (close_list_code _ _ Hc Ecl) as [H|H]; [left; exact H|right].
+    split; [unfold clean; cbn; tauto|]. left. split; [reflexivity|]. unfold bump. rewrite Hb. reflexivity. }
+  all: injection Hstep as <- <-; cbn in Happ; injection Happ as <- <-; cbn [s_core] in *;
+    (destruct (emit_code c _ pend Hc He He1) as [H|H]; [left; exact H|right; split; [exact H|]]).
+  all: repeat (apply andb_true_iff in Hal2 as [Hal2 ?]).
+  all: try (right; split; [reflexivity|]; split; apply negb_true_iff; assumption).
+  all: left; split; [reflexivity|]; unfold bump;
+    repeat match goal with H : N.eqb _ _ = true |- _ => rewrite H end; cbn; rewrite ?orb_true_r; reflexivity.
+Qed.
+
+Lemma s_no_retry esc a b s c1 op : allowed2 (c_mode (s_core s)) b a = true -> class_of (c_mode (s_core s)) = ClsNone ->
+  step_core esc a b (s_core s) = (c1, op) -> snd (s_apply s b c1 op) = false.
+Proof.
+  intros Hal Hcl Hstep. pose proof (op_facts esc a b _ c1 op Hal Hstep) as Hop.
+  destruct op; try reflexivity. destruct Hop as [Hc _]. exfalso. apply Hc. exact Hcl.
+Qed.
+Lemma s_retry_mode s b c1 op s1 : s_apply s b c1 op = (s1, true) -> c_mode (s_core s1) = MValue.
+Proof. destruct op; cbn; intros H; injection H as <- Hr; try discriminate Hr. cbn. apply emit_mode. Qed.
+
+(* the third table fact: in value mode a close parenthesis is the close action *)
+Definition table_ok3 (T : tables) : bool := match act T MValue 41%N with AClose => true | _ => false end.
+
+Lemma stop_step T esc sm b : table_ok T = true -> table_ok2 T = true -> table_ok3 T = true ->
+  c_err (s_core sm) = None -> code (c_p (s_core sm)) = [] ->
+  c_err (s_core (s_step T esc sm b)) = None -> code (c_p (s_core (s_step T esc sm b))) <> [] ->
+  Rs (code (c_p (s_core (s_step T esc sm b)))) (s_step T esc sm b) (if bump b then s0 else s_step T esc s0 b).
+Proof.
+  intros H1 H2 H3 He Hc. unfold s_step at 1 2 3 4. rewrite He.
+  destruct (step_core esc (act T (c_mode (s_core sm)) b) b (s_core sm)) as [c1 op1] eqn:E1.
+  destruct (s_apply sm b c1 op1) as [s1 r] eqn:E2.
+  pose proof (first_apply esc _ b sm c1 op1 s1 r (allowed2_all T H1 H2 _ _) E1 E2 He Hc) as F1.
+  destruct r.
+  - (* the byte terminated a lexeme and is looked at again *)
+    destruct (c_err (s_core s1)) eqn:E3; [intros Hx; rewrite E3 in Hx; discriminate Hx|].
+    specialize (F1 eq_refl).
+    pose proof (s_retry_mode sm b c1 op1 s1 E2) as Hm1.
+    destruct (step_core esc (act T (c_mode (s_core s1)) b) b (s_core s1)) as [c2 op2] eqn:E4.
+    destruct (s_apply s1 b c2 op2) as [s2 r2] eqn:E5. cbn [fst].
+    assert (Hr2 : r2 = false).
+    { pose proof (s_no_retry esc _ b s1 c2 op2 (allowed2_all T H1 H2 _ _) ltac:(rewrite Hm1; reflexivity) E4) as H. rewrite E5 in H. exact H. }
+    subst r2. intros He2 Hc2.
+    destruct F1 as [Hc1|[Hcl1 [[Hr _]|(_ & Hb34 & Hb124)]]]; [| discriminate Hr |].
+    + (* the lexeme went into an open list: the object is completed by the byte itself *)
+      destruct (first_apply esc _ b s1 c2 op2 s2 false (allowed2_all T H1 H2 _ _) E4 E5 E3 Hc1 He2) as [Hx|[Hcl2 [[_ Hb]|[Hr _]]]];
+        [contradiction | | discriminate Hr].
+      rewrite Hb. apply clean_Rs. exact Hcl2.
+    + (* the lexeme is the object; the byte is read afresh by both readers *)
+      pose proof (clean_Rs s1 Hcl1) as HRs1.
+      destruct (N.eqb b 41%N) eqn:Eb.
+      * (* a close parenthesis with nothing open: error *)
+        apply N.eqb_eq in Eb. subst b. exfalso. unfold table_ok3 in H3. rewrite Hm1 in E4.
+        destruct (act T MValue 41%N); try discriminate H3. cbn [step_core] in E4.
+        destruct Hcl1 as (_ & Hst & _). unfold close_list in E4. rewrite Hst in E4. cbn in E4.
+        injection E4 as <- <-. cbn in E5. injection E5 as <-. cbn in He2. discriminate He2.
+      * assert (Hbump : bump b = false) by (unfold bump; rewrite Eb, Hb34, Hb124; reflexivity). rewrite Hbump.
+        destruct (apply_R esc _ _ b s1 s0 c2 op2 s2 false HRs1 (allowed2_all T H1 H2 _ _) E4 E5) as (c2' & s2' & E4' & E5' & HRs2).
+        unfold s_step. cbn [s0 s_core core0 c_err]. change (c_mode core0) with MValue. rewrite Hm1 in E4'. cbn [s0 s_core] in E4'. rewrite E4'.
+        cbn [s0] in E5'. rewrite E5'.
+        assert (He2' : c_err (s_core s2') = None).
+        { destruct HRs2 as [(_ & _ & He' & _) _]. rewrite <- He'. exact He2. }
+        destruct (first_apply esc _ b s0 c2' op2 s2' false (allowed2_all T H1 H2 _ _) E4' E5' eq_refl eq_refl He2') as [Hx|[_ [[_ Hb]|[Hr _]]]].
+        -- destruct HRs2 as [HR2 Hp2]. pose proof HR2 as (_ & (_ & Hco) & _). rewrite Hx in Hco. cbn in Hco. rewrite Hco. split; [exact HR2|exact Hp2].
+        -- rewrite Hbump in Hb. discriminate Hb.
+        -- discriminate Hr.
+  - (* no retry: the byte completed the object *)
+    intros He1 Hc1. destruct (F1 He1) as [Hx|[Hcl [[_ Hb]|[Hr _]]]]; [contradiction| |discriminate Hr].
+    rewrite Hb. apply clean_Rs. exact Hcl.
 Qed.
